@@ -103,6 +103,19 @@ inductive Key (ν : Type) where
 /-- `True` / `False` used as a list index. -/
 def boolIndex (b : Bool) : Int := if b then 1 else 0
 
+/-- Everything Python's `str` can tell about a name *besides* comparing it with another name, as parameters (the way
+`lower` is one): the predicates (`s.isdecimal()`, `s.isdigit()`, `s.startswith("_")` … by their spelling), the
+transformations (`s.strip()`, `s.upper()` …), `int(s)` (`none` = `ValueError`) and what a string literal denotes.
+The translated functions (`Gen.SchemaFns.column` / `find_column` / `pop_column`) take one; the model's operations
+do not — lookup by name compares names and nothing else — and `C17.generated_*_eq_model` hold **for every**
+`StrOps`: a source that starts reading a name as something else (`'1'` as a position, `'None'` as no name, a name
+stripped before it is compared) makes the translation depend on these and the equality stops checking. -/
+structure StrOps (ν : Type) where
+  pred : String → ν → Bool
+  fn : String → ν → ν
+  toInt : ν → Option Int
+  lit : String → ν
+
 /-- What one operation returns. -/
 inductive Out (ι ν : Type) where
   | col (c : Option (Col ι ν))      -- a lookup: the column or `None`
